@@ -179,6 +179,8 @@ pub enum Input {
 pub struct Plan {
     pub n: u32,
     pub kind: u8,
+    /// make the call from this many KiB deeper in the caller's stack (0: as is)
+    pub stack_kib: u32,
 }
 
 pub const FAULT_KINDS: &[&str] = &[
@@ -223,10 +225,12 @@ fn input_json(i: &Input) -> Value {
 }
 
 fn plan_json(p: &Plan) -> Value {
-    if p.n == 0 {
+    if p.n == 0 && p.stack_kib == 0 {
         Value::Null
+    } else if p.n == 0 {
+        json!({"n": 0, "kind": 0, "stack_kib": p.stack_kib})
     } else {
-        json!({"n": p.n, "kind": p.kind, "kind_name": FAULT_KINDS[p.kind as usize % FAULT_KINDS.len()]})
+        json!({"n": p.n, "kind": p.kind, "kind_name": FAULT_KINDS[p.kind as usize % FAULT_KINDS.len()], "stack_kib": p.stack_kib})
     }
 }
 
@@ -291,6 +295,7 @@ fn plan_from(v: &Value) -> Plan {
         Some(p) if p.is_object() => Plan {
             n: p.get("n").and_then(|x| x.as_u64()).unwrap_or(0) as u32,
             kind: p.get("kind").and_then(|x| x.as_u64()).unwrap_or(0) as u8,
+            stack_kib: p.get("stack_kib").and_then(|x| x.as_u64()).unwrap_or(0) as u32,
         },
         _ => Plan::default(),
     }
